@@ -998,6 +998,12 @@ def r16_exported_rows_as_prescribed(ctx, res):
     from .c01 import r7_readers
     r7_readers(ctx, res)
 
+def r17_writer_attributes_reach_the_element(ctx, res):
+    """export goes through the writer: every attribute the builders compute reaches the element it is meant for (C02-R11: no
+    store into an attrib dict after ET.Element copied it)."""
+    from .c02 import r11_attributes_set_before_construction
+    r11_attributes_set_before_construction(ctx, res)
+
 RULES = [
     ('C03-R1', r1_coverage, 75),
     ('C03-R2', r2_guard_consistency, 3),
@@ -1015,4 +1021,5 @@ RULES = [
     ('C03-R14', r14_writer_tests_truth_not_presence, 15),
     ('C03-R15', r15_writer_metadata_complete, 3),
     ('C03-R16', r16_exported_rows_as_prescribed, 40),
+    ('C03-R17', r17_writer_attributes_reach_the_element, 10),
 ]
